@@ -3,7 +3,9 @@
 package server
 
 import (
-	"github.com/juev/hledger-lsp/internal/parser"
+	"unicode"
+	"unicode/utf8"
+
 	"github.com/juev/hledger-lsp/internal/zzverif"
 )
 
@@ -20,7 +22,7 @@ func init() {
 
 const (
 	lfDate = iota
-	lfOp // = == @ @@ and the '=' of a secondary date
+	lfOp   // = == @ @@ and the '=' of a secondary date
 	lfPipe
 	lfStatus
 	lfCode
@@ -50,18 +52,18 @@ type c17Lexeme struct {
 	b0, b1 int    // byte span in the line
 	u0, u1 int    // UTF-16 span in the line
 	r0     int    // rune column of the start
-	// what the lexer must deliver for this leaf (mislexing classes): token type, and the
-	// length of its value; lexType < 0: not checked (tags live inside the comment token)
-	lexType parser.TokenType
-	lexLen  int
 	// for tags: index of the enclosing comment lexeme
 	comment int
 }
+
+// c17WideAt: a non-ASCII character of the line (byte, UTF-16 and rune column; k indexes c17WideChars)
+type c17WideAt struct{ b, u, r, k int }
 
 type c17Line struct {
 	text    string
 	b, u, r int
 	lex     []c17Lexeme
+	wides   []c17WideAt
 	// wide character plan: at most one text leaf of the line receives one non-ASCII
 	// character (é, € or 😀) in its first or last slot; decided leaf by leaf
 	widePlaced bool
@@ -80,6 +82,7 @@ func (l *c17Line) raw(s string) {
 
 func (l *c17Line) wide(k int) {
 	s := c17WideChars[k]
+	l.wides = append(l.wides, c17WideAt{l.b, l.u, l.r, k})
 	l.text += s
 	l.b += len(s)
 	l.u += c17WideU16[k]
@@ -100,8 +103,8 @@ type c17Mark struct{ b, u, r int }
 
 func (l *c17Line) mark() c17Mark { return c17Mark{l.b, l.u, l.r} }
 
-func (l *c17Line) lexeme(m c17Mark, leaf int, kinds uint32, lexType parser.TokenType, lexLen int) int {
-	l.lex = append(l.lex, c17Lexeme{leaf: leaf, kinds: kinds, b0: m.b, b1: l.b, u0: m.u, u1: l.u, r0: m.r, lexType: lexType, lexLen: lexLen, comment: -1})
+func (l *c17Line) lexeme(m c17Mark, leaf int, kinds uint32) int {
+	l.lex = append(l.lex, c17Lexeme{leaf: leaf, kinds: kinds, b0: m.b, b1: l.b, u0: m.u, u1: l.u, r0: m.r, comment: -1})
 	return len(l.lex) - 1
 }
 
@@ -204,25 +207,25 @@ func (l *c17Line) date(name string, long bool) {
 	l.raw(zzverif.Digits(name+".mo", md))
 	l.raw(sep)
 	l.raw(zzverif.Digits(name+".da", dd))
-	l.lexeme(m, lfDate, c17Bit(ttDate), parser.TokenDate, l.b-m.b)
+	l.lexeme(m, lfDate, c17Bit(ttDate))
 }
 
-func (l *c17Line) op(s string, t parser.TokenType) {
+func (l *c17Line) op(s string) {
 	m := l.mark()
 	l.raw(s)
-	l.lexeme(m, lfOp, c17Bit(ttOperator), t, len(s))
+	l.lexeme(m, lfOp, c17Bit(ttOperator))
 }
 
-func (l *c17Line) sign() {
+func (l *c17Line) sign(ch string) {
 	m := l.mark()
-	l.raw("-")
-	l.lexeme(m, lfSign, 0, parser.TokenSign, 1)
+	l.raw(ch)
+	l.lexeme(m, lfSign, 0)
 }
 
 func (l *c17Line) silent(s string) {
 	m := l.mark()
 	l.raw(s)
-	l.lexeme(m, lfSilent, 0, -1, 0)
+	l.lexeme(m, lfSilent, 0)
 }
 
 // tag appends WS? name ":" WS? [ value ]. full: all blank / length variants.
@@ -238,13 +241,13 @@ func (l *c17Line) tag(tn string, ci, n int, full bool) {
 	tm := l.mark()
 	l.slots(tn+".name", nlen, c17NameA, c17NameA, c17NameA, true)
 	l.raw(":")
-	ti := l.lexeme(tm, lfTagName, c17Bit(ttTag), -1, 0)
+	ti := l.lexeme(tm, lfTagName, c17Bit(ttTag))
 	l.lex[ti].comment = ci
 	l.spaces(gap)
 	if vn > 0 {
 		vm := l.mark()
 		l.slots(tn+".value", vn, c17ValueEnd, c17ValueA, c17ValueEnd, false)
-		vi := l.lexeme(vm, lfTagValue, c17Bit(ttTagValue), -1, 0)
+		vi := l.lexeme(vm, lfTagValue, c17Bit(ttTagValue))
 		l.lex[vi].comment = ci
 	}
 }
@@ -254,7 +257,7 @@ func (l *c17Line) tag(tn string, ci, n int, full bool) {
 func (l *c17Line) comment(name string, kind, n int, full bool) {
 	m := l.mark()
 	l.raw(";")
-	ci := l.lexeme(m, lfComment, c17Bit(ttComment), parser.TokenComment, 0)
+	ci := l.lexeme(m, lfComment, c17Bit(ttComment))
 	switch kind {
 	case 1:
 		l.slots(name+".free", 1+zzverif.Choice(name+".flen", n), c17FreeA, c17FreeA, c17FreeA, false)
@@ -271,7 +274,6 @@ func (l *c17Line) comment(name string, kind, n int, full bool) {
 	}
 	// the comment lexeme runs to the end of the line content
 	l.lex[ci].b1, l.lex[ci].u1 = l.b, l.u
-	l.lex[ci].lexLen = l.b - m.b - 1
 }
 
 func (l *c17Line) number(name string, forms int) {
@@ -299,7 +301,7 @@ func (l *c17Line) number(name string, forms int) {
 		l.raw([]string{"", "+", "-"}[zzverif.Choice(name+".esign", 3)])
 		l.raw(zzverif.Digits(name+".e", 1))
 	}
-	l.lexeme(m, lfNumber, c17Bit(ttAmount), parser.TokenNumber, l.b-m.b)
+	l.lexeme(m, lfNumber, c17Bit(ttAmount))
 }
 
 // symbol appends a commodity symbol. which: 0 "$", 1 "€", 2 CODE, 3 quoted, 4 lower-case name
@@ -308,23 +310,23 @@ func (l *c17Line) symbol(name string, which, n int) {
 	switch which {
 	case 0:
 		l.raw("$")
-		l.lexeme(m, lfCommodity, c17Bit(ttCommodity), parser.TokenCommodity, 1)
+		l.lexeme(m, lfCommodity, c17Bit(ttCommodity))
 	case 1:
 		l.wide(1)
-		l.lexeme(m, lfCommodity, c17Bit(ttCommodity), parser.TokenCommodity, 3)
+		l.lexeme(m, lfCommodity, c17Bit(ttCommodity))
 	case 2:
 		k := 1 + zzverif.Choice(name+".len", n)
 		l.raw(zzverif.Text(name+".code", zzverif.Upper, k))
-		l.lexeme(m, lfCommodity, c17Bit(ttCommodity), parser.TokenCommodity, k)
+		l.lexeme(m, lfCommodity, c17Bit(ttCommodity))
 	case 3:
 		l.raw("\"")
 		l.slots(name+".q", 1+zzverif.Choice(name+".len", n), c17QuotedEnd, c17QuotedA, c17QuotedEnd, false)
 		l.raw("\"")
-		l.lexeme(m, lfQuoted, c17Bit(ttCommodity), parser.TokenCommodity, l.b-m.b-2)
+		l.lexeme(m, lfQuoted, c17Bit(ttCommodity))
 	default:
 		k := 1 + zzverif.Choice(name+".len", n)
 		l.raw(zzverif.Text(name+".lower", zzverif.Lower, k))
-		l.lexeme(m, lfLower, c17Bit(ttCommodity), parser.TokenCommodity, k)
+		l.lexeme(m, lfLower, c17Bit(ttCommodity))
 	}
 }
 
@@ -350,10 +352,14 @@ func (l *c17Line) amount(name string, n, level int) {
 		}
 		return
 	}
-	form := zzverif.Choice(name+".form", 3) // 0 bare number, 1 left symbol, 2 right symbol
-	sign := zzverif.Choice(name+".sign", 1+level) // 0 none, 1 '-' first, 2 '-' between symbol and number
+	form := zzverif.Choice(name+".form", 3)       // 0 bare number, 1 left symbol, 2 right symbol
+	sign := zzverif.Choice(name+".sign", 1+level) // 0 none, 1 sign first, 2 sign between symbol and number
+	sch := "-"
+	if level == 2 && sign > 0 {
+		sch = []string{"-", "+"}[zzverif.Choice(name+".signch", 2)]
+	}
 	if sign == 1 {
-		l.sign()
+		l.sign(sch)
 	}
 	switch form {
 	case 0:
@@ -362,7 +368,9 @@ func (l *c17Line) amount(name string, n, level int) {
 	case 1:
 		l.symbol(name+".sym", zzverif.Choice(name+".symL", 4), n)
 		if sign == 2 {
-			l.sign()
+			l.sign(sch)
+		} else if level == 2 {
+			l.spaces(zzverif.Choice(name+".lsp", 2)) // symL SP number
 		}
 		l.number(name+".num", nforms)
 	default:
@@ -390,47 +398,50 @@ func (l *c17Line) account(name string, segs, n int, first string) {
 		}
 		l.slots(name+".seg"+zzverif.Itoa(s), k, f, c17SegMid, c17SegA, false)
 	}
-	l.lexeme(m, lfAccount, c17Bit(ttAccount), parser.TokenAccount, l.b-m.b)
+	l.lexeme(m, lfAccount, c17Bit(ttAccount))
 }
 
 // plainAccount: "x:y" with two symbolic letters, no wide character
-func (l *c17Line) plainAccount(name string) {
+func (l *c17Line) plainAccount(name string) { l.plainAccountEnd(name, zzverif.Letters) }
+
+// plainAccountEnd: "x:y", x a letter, y from the given alphabet
+func (l *c17Line) plainAccountEnd(name, last string) {
 	m := l.mark()
 	l.sym(name+".0", zzverif.Letters)
 	l.raw(":")
-	l.sym(name+".1", zzverif.Letters)
-	l.lexeme(m, lfAccount, c17Bit(ttAccount), parser.TokenAccount, 3)
+	l.sym(name+".1", last)
+	l.lexeme(m, lfAccount, c17Bit(ttAccount))
 }
 
 func (l *c17Line) status(st int) {
 	m := l.mark()
 	l.raw([]string{"*", "!"}[st-1])
-	l.lexeme(m, lfStatus, c17Bit(ttStatus), parser.TokenStatus, 1)
+	l.lexeme(m, lfStatus, c17Bit(ttStatus))
 }
 
 func (l *c17Line) directive(word string) {
 	m := l.mark()
 	l.raw(word)
-	l.lexeme(m, lfDirective, c17Bit(ttDirective), parser.TokenDirective, len(word))
+	l.lexeme(m, lfDirective, c17Bit(ttDirective))
 }
 
 func (l *c17Line) textLeaf(name string, leaf int, kinds uint32, n int) {
 	m := l.mark()
 	l.slots(name, n, c17DescFirst, c17Desc, c17DescLast, false)
-	l.lexeme(m, leaf, kinds, parser.TokenText, l.b-m.b)
+	l.lexeme(m, leaf, kinds)
 }
 
 // plainText: lower-case letters only (always lexed as one text token), may take the wide character
 func (l *c17Line) plainText(name string, leaf int, kinds uint32, n int) {
 	m := l.mark()
 	l.slots(name, n, zzverif.Lower, zzverif.Lower, zzverif.Lower, false)
-	l.lexeme(m, leaf, kinds, parser.TokenText, l.b-m.b)
+	l.lexeme(m, leaf, kinds)
 }
 
 func (l *c17Line) fixedDate() {
 	m := l.mark()
 	l.raw("2024-01-15")
-	l.lexeme(m, lfDate, c17Bit(ttDate), parser.TokenDate, 10)
+	l.lexeme(m, lfDate, c17Bit(ttDate))
 }
 
 func (l *c17Line) indent(k int) {
@@ -460,7 +471,7 @@ func c17Scenario(l *c17Line, sc, n int, long bool) []*c17Line {
 	case 0: // header: date forms, secondary date, status, code; then a plain description
 		l.date("d1", long)
 		if zzverif.Choice("date2", 2) == 1 {
-			l.op("=", parser.TokenEquals)
+			l.op("=")
 			l.date("d2", false)
 		}
 		if st := zzverif.Choice("status", 3); st > 0 {
@@ -473,7 +484,7 @@ func c17Scenario(l *c17Line, sc, n int, long bool) []*c17Line {
 			l.raw("(")
 			l.slots("code", zzverif.Choice("code.len", n+1), c17CodeA, c17CodeA, c17CodeA, false)
 			l.raw(")")
-			l.lexeme(m, lfCode, c17Bit(ttCode), parser.TokenCode, l.b-m.b-2)
+			l.lexeme(m, lfCode, c17Bit(ttCode))
 		}
 		if zzverif.Choice("desc", 2) == 1 {
 			ws("desc.ws")
@@ -496,7 +507,7 @@ func c17Scenario(l *c17Line, sc, n int, long bool) []*c17Line {
 		l.raw(" ")
 		pm := l.mark()
 		l.raw("|")
-		l.lexeme(pm, lfPipe, c17Bit(ttOperator), parser.TokenPipe, 1)
+		l.lexeme(pm, lfPipe, c17Bit(ttOperator))
 		l.raw(" ")
 		l.textLeaf("note", lfNote, c17Bit(ttString), 1+zzverif.Choice("note.len", n))
 		if zzverif.Choice("hc", 2) == 1 {
@@ -553,9 +564,9 @@ func c17Scenario(l *c17Line, sc, n int, long bool) []*c17Line {
 			l.spaces(2)
 			l.number("num", 1)
 		}
-	case 6: // posting: the amount in every form
+	case 6: // posting: the amount in every form; the account may end in a digit
 		l.indent(4)
-		l.plainAccount("acct")
+		l.plainAccountEnd("acct", zzverif.Letters+zzverif.Digit)
 		if long {
 			l.spaces(2 + zzverif.Choice("gap", 3))
 		} else {
@@ -584,9 +595,9 @@ func c17Scenario(l *c17Line, sc, n int, long bool) []*c17Line {
 		if c > 0 {
 			ws("cost.ws")
 			if c == 1 {
-				l.op("@", parser.TokenAt)
+				l.op("@")
 			} else {
-				l.op("@@", parser.TokenAtAt)
+				l.op("@@")
 			}
 			ws("cost.ws2")
 			l.amount("cost", n, lvl)
@@ -595,9 +606,9 @@ func c17Scenario(l *c17Line, sc, n int, long bool) []*c17Line {
 		if a > 0 {
 			ws("bal.ws")
 			if a == 1 {
-				l.op("=", parser.TokenEquals)
+				l.op("=")
 			} else {
-				l.op("==", parser.TokenDoubleEquals)
+				l.op("==")
 			}
 			ws("bal.ws2")
 			l.amount("bal", n, lvl)
@@ -607,10 +618,14 @@ func c17Scenario(l *c17Line, sc, n int, long bool) []*c17Line {
 		l.plainAccount("acct")
 		l.spaces(zzverif.Choice("pc.ws", 3))
 		kind := zzverif.Choice("pc.kind", 5)
+		if c17DevKind >= 0 {
+			zzverif.Assume(kind == c17DevKind)
+		}
+		// quick: every blank / length variant of a single tag; two-part comments in their plainest form
 		if long || kind <= 2 {
 			l.comment("pc", kind, n, true)
 		} else {
-			l.comment("pc", kind, 1, true)
+			l.comment("pc", kind, 1, false)
 		}
 	case 9: // account / include / year directives, also after other lines
 		switch zzverif.Choice("before", 3) {
@@ -641,13 +656,13 @@ func c17Scenario(l *c17Line, sc, n int, long bool) []*c17Line {
 			l.raw(" ")
 			m := l.mark()
 			l.slots("path", 1+zzverif.Choice("path.len", n+1), c17PathA, c17PathA, c17PathA, false)
-			l.lexeme(m, lfPath, c17Bit(ttString), parser.TokenText, l.b-m.b)
+			l.lexeme(m, lfPath, c17Bit(ttString))
 		default:
 			l.directive([]string{"Y", "year"}[zzverif.Choice("yword", 2)])
 			l.raw(" ")
 			m := l.mark()
 			l.raw(zzverif.Digits("year", 4))
-			l.lexeme(m, lfYear, c17Bit(ttDate)|c17Bit(ttAmount), parser.TokenNumber, 4)
+			l.lexeme(m, lfYear, c17Bit(ttDate)|c17Bit(ttAmount))
 		}
 	case 10: // commodity / D / P directives
 		nforms := 2
@@ -731,6 +746,17 @@ func c17Scenario(l *c17Line, sc, n int, long bool) []*c17Line {
 
 // ---------------------------------------------------------------------------------------
 // The check
+//
+// Oracle (property text): every emitted token has a type of the legend, lies on an existing
+// line, tokens are in document order and do not overlap, and each token covers exactly one
+// lexeme of its kind: (col, length) == the UTF-16 span the derivation records for a lexeme
+// whose kinds include the token's type.
+//
+// Known-finding classes are INPUT predicates: from the derivation alone every class yields
+// "excuse windows" on a line — a column interval and a set of token types. A token that
+// starts inside a window of an enabled class is not judged; a token inside a window of a
+// class that is not enabled is judged by the same strict assertion, only the message names
+// the class (so a run without classes reports the classes).
 // ---------------------------------------------------------------------------------------
 
 var c17TypeMsg = []string{
@@ -749,148 +775,327 @@ var c17TypeMsg = []string{
 	"a tagValue token does not cover a tag value",
 }
 
-type c17LexTok struct {
-	typ    parser.TokenType
-	off    int
-	valLen int
-}
-
-func c17LexAll(doc string) []c17LexTok {
-	lx := parser.NewLexer(doc)
-	var out []c17LexTok
-	for {
-		t := lx.Next()
-		if t.Type == parser.TokenEOF {
-			return out
-		}
-		out = append(out, c17LexTok{t.Type, t.Pos.Offset, len(t.Value)})
-	}
-}
-
-// Known-finding classes of C17 geometry (one cause each) and the message under which a
-// violation of that class is reported while the class is not enabled.
 const (
-	kfTextLeaf  = "text-leaf-lexed-generically"
-	kfCodeColon = "code-with-colon-lexed-as-account"
-	kfAcctStart = "account-not-starting-with-letter"
-	kfLowerComm = "lowercase-commodity-lexed-as-text"
-	kfSignQuote = "sign-before-quoted-commodity-lexed-as-text"
-	kfRunes     = "token-column-in-runes"
-	kfDelims    = "delimited-token-length-without-delimiters"
-	kfPipe      = "pipe-token-after-the-bar"
-	kfCRLF      = "crlf-carriage-return-in-token"
-	kfTagBytes  = "tag-geometry-in-bytes"
-	kfPayeeLeak = "payee-flag-leaks-to-later-line"
+	// the lexer chooses the token kind from the first character(s), whatever the line context
+	kfTextDigit   = "c17-desc-starts-with-digit"
+	kfTextBracket = "c17-desc-starts-with-bracket-or-at"
+	kfTextCurr    = "c17-desc-starts-with-currency-or-quote"
+	kfTextSign    = "c17-desc-starts-with-sign"
+	kfTextUpper   = "c17-desc-upper-case-word"
+	kfTextColon   = "c17-desc-colon-ahead-lexed-as-account"
+	kfPathStar    = "c17-path-starts-with-star"
+	kfCodeColon   = "c17-code-contains-colon"
+	kfAcctStart   = "c17-acct-starts-with-non-letter"
+	kfLowerComm   = "c17-lower-symbol-lexed-as-text"
+	kfSignSymbol  = "c17-sign-before-quoted-or-spaced-symbol"
+	kfCodeDigit   = "c17-code-number-after-digit"
+	kfCRLF        = "c17-crlf"
+	// token geometry proper
+	kfAstral    = "c17-column-in-runes-after-astral"
+	kfTagBytes  = "c17-tag-geometry-in-bytes"
+	kfCodeParen = "c17-code-token-without-parentheses"
+	kfQuoted    = "c17-quoted-commodity-token-without-quotes"
+	kfPipe      = "c17-pipe-token-one-column-right"
+	kfPayeeLeak = "c17-payee-type-leaks-to-later-line"
 )
 
 var c17ClassMsg = map[string]string{
-	kfTextLeaf:  "a description / payee / note / include path is not lexed as one text token, so its tokens do not cover it",
-	kfCodeColon: "a transaction code that contains ':' is lexed as a virtual account",
-	kfAcctStart: "an account name that does not start with a letter is not lexed as an account",
-	kfLowerComm: "a lower-case commodity after a number is lexed as text (up to the comment)",
-	kfSignQuote: "a sign in front of a quoted commodity is lexed as text together with the amount",
-	kfRunes:     "a token column counts runes, not UTF-16 code units (astral character earlier on the line)",
-	kfDelims:    "a code / quoted commodity token is two units short (its length is that of the text between the delimiters)",
-	kfPipe:      "the '|' token is reported one column after the bar",
-	kfCRLF:      "with CRLF line ends the carriage return is part of a comment token or forms an empty token",
-	kfTagBytes:  "tag name / value tokens are positioned or sized in bytes, not UTF-16 code units",
-	kfPayeeLeak: "a text token is typed payee because an earlier header line had no description",
+	kfTextDigit:   "[c17-desc-starts-with-digit] a description / note / include path that starts with a digit is lexed as a number or date; its tokens do not cover it",
+	kfTextBracket: "[c17-desc-starts-with-bracket-or-at] a description / note that starts with ) [ ] or @ is lexed as a bracket / operator; its tokens do not cover it",
+	kfTextCurr:    "[c17-desc-starts-with-currency-or-quote] a description / payee / note that starts with a currency sign or a double quote is lexed as a commodity; its tokens do not cover it",
+	kfTextSign:    "[c17-desc-starts-with-sign] a description / note / include path that starts with a sign followed by a digit, currency sign or CODE+digit is lexed as a sign; its tokens do not cover it",
+	kfTextUpper:   "[c17-desc-upper-case-word] a description / note / include path whose first word is upper-case letters and digits is lexed as a commodity; its tokens do not cover it",
+	kfTextColon:   "[c17-desc-colon-ahead-lexed-as-account] a description / note that starts with a letter and has a ':' ahead is lexed as an account; its tokens do not cover it",
+	kfPathStar:    "[c17-path-starts-with-star] an include path that starts with '*' is lexed as a status mark",
+	kfCodeColon:   "[c17-code-contains-colon] a transaction code that contains ':' is lexed as a virtual account",
+	kfAcctStart:   "[c17-acct-starts-with-non-letter] an account name that does not start with a letter is not lexed as an account",
+	kfLowerComm:   "[c17-lower-symbol-lexed-as-text] a lower-case commodity symbol is lexed as free text (up to the comment) and typed string / payee",
+	kfSignSymbol:  "[c17-sign-before-quoted-or-spaced-symbol] a sign directly before a quoted commodity or before CODE+blank is lexed as free text together with the amount",
+	kfCodeDigit:   "[c17-code-number-after-digit] CODE directly followed by its number, after something that ends in a digit: the digits are taken into the commodity token",
+	kfCRLF:        "[c17-crlf] with CRLF line ends the carriage return is part of a comment token or forms an empty text token",
+	kfAstral:      "[c17-column-in-runes-after-astral] a token after an astral character on its line: the column counts runes, not UTF-16 code units",
+	kfTagBytes:    "[c17-tag-geometry-in-bytes] a tag / tag value at or after a multi-byte character of its comment is positioned and sized in bytes, not UTF-16 code units",
+	kfCodeParen:   "[c17-code-token-without-parentheses] a code token is two units short (its length is that of the text between the parentheses)",
+	kfQuoted:      "[c17-quoted-commodity-token-without-quotes] a quoted commodity token is two units short (its length is that of the text between the quotes)",
+	kfPipe:        "[c17-pipe-token-one-column-right] the '|' token is reported one column after the bar",
+	kfPayeeLeak:   "[c17-payee-type-leaks-to-later-line] an include path is typed payee because an earlier transaction header had no description",
 }
 
-// c17Excused reports a violation of a class: skipped when the class is enabled, reported
-// under the class's own message otherwise.
-func c17Excused(class string) {
-	if zzverif.Known(class) {
-		zzverif.Reach("kf:" + class)
-		return
+// ---- input predicates (mirrors of the first-character dispatch of lexer.go scanInLine) ----
+
+func c17IsDigit(b byte) bool  { return b >= '0' && b <= '9' }
+func c17IsUpper(b byte) bool  { return b >= 'A' && b <= 'Z' }
+func c17IsLetter(b byte) bool { return (b >= 'a' && b <= 'z') || (b >= 'A' && b <= 'Z') }
+
+// c17LetterAt: the character at off is a letter (ASCII or not).
+func c17LetterAt(text string, off int) bool {
+	if off >= len(text) {
+		return false
 	}
-	zzverif.Assert(false, c17ClassMsg[class])
+	if b := text[off]; b < 0x80 {
+		return c17IsLetter(b)
+	}
+	r, _ := utf8.DecodeRuneInString(text[off:])
+	return unicode.IsLetter(r)
 }
 
-// c17MislexClass: the class a leaf belongs to when the lexer does not deliver it as one
-// token of its type ("" = no such class: a genuine failure).
-func c17MislexClass(leaf int) string {
-	switch leaf {
-	case lfDesc, lfPayee, lfNote, lfPath:
-		return kfTextLeaf
-	case lfCode:
-		return kfCodeColon
-	case lfAccount:
-		return kfAcctStart
-	case lfLower:
-		return kfLowerComm
-	case lfSign:
-		return kfSignQuote
+// c17CurrencyAt: the character at off is one of the currency signs $ € £ ¥ ₽ ₴.
+func c17CurrencyAt(text string, off int) bool {
+	if off >= len(text) {
+		return false
+	}
+	if b := text[off]; b < 0x80 {
+		return b == '$'
+	}
+	r, _ := utf8.DecodeRuneInString(text[off:])
+	return r == '€' || r == '£' || r == '¥' || r == '₽' || r == '₴'
+}
+
+// c17ColonAhead: a ':' occurs at or after off, before the next  ; @ = ( ) [ ]  tab, CR, line
+// end or run of two blanks.
+func c17ColonAhead(text string, off int) bool {
+	for i := off; i < len(text); i++ {
+		switch text[i] {
+		case ':':
+			return true
+		case ' ':
+			if i+1 < len(text) && text[i+1] == ' ' {
+				return false
+			}
+		case '\t', '\n', '\r', ';', '@', '=', '(', ')', '[', ']':
+			return false
+		}
+	}
+	return false
+}
+
+// c17PrevIsDigit: the last non-blank character before off is a digit.
+func c17PrevIsDigit(text string, off int) bool {
+	p := off - 1
+	for p >= 0 && text[p] == ' ' {
+		p--
+	}
+	return p >= 0 && c17IsDigit(text[p])
+}
+
+func c17DigitOrSignedDigitAt(text string, off int) bool {
+	if off >= len(text) {
+		return false
+	}
+	if c17IsDigit(text[off]) {
+		return true
+	}
+	return (text[off] == '-' || text[off] == '+') && off+1 < len(text) && c17IsDigit(text[off+1])
+}
+
+// c17UpperWordAt: the word at off reads like a commodity code: its leading run of ASCII letters
+// and digits consists of upper-case letters and digits only; or, when the word does not follow
+// a digit, its leading upper-case letters are directly followed by a digit or a signed digit.
+func c17UpperWordAt(text string, off int) bool {
+	if off >= len(text) || !c17IsUpper(text[off]) {
+		return false
+	}
+	i := off
+	for i < len(text) && c17IsUpper(text[i]) {
+		i++
+	}
+	if i < len(text) && c17IsLetter(text[i]) {
+		return false
+	}
+	if !c17PrevIsDigit(text, off) && c17DigitOrSignedDigitAt(text, i) {
+		return true
+	}
+	for i < len(text) && (c17IsLetter(text[i]) || c17IsDigit(text[i])) {
+		if !c17IsUpper(text[i]) && !c17IsDigit(text[i]) {
+			return false
+		}
+		i++
+	}
+	return true
+}
+
+// c17SignedAt: a sign at off that is directly followed by a digit, a currency sign, or letters
+// that are directly followed by a digit or a signed digit.
+func c17SignedAt(text string, off int) bool {
+	if off+1 >= len(text) || (text[off] != '-' && text[off] != '+') {
+		return false
+	}
+	if c17IsDigit(text[off+1]) || c17CurrencyAt(text, off+1) {
+		return true
+	}
+	i := off + 1
+	for i < len(text) && c17IsLetter(text[i]) {
+		i++
+	}
+	return i > off+1 && c17DigitOrSignedDigitAt(text, i)
+}
+
+// c17TextLeafClass: the class of a free-text leaf (description, payee, note, include path)
+// that starts at byte off of the line; "" = the leaf is free text for the lexer too.
+func c17TextLeafClass(text string, off int, path bool) string {
+	b := text[off]
+	switch {
+	case c17IsDigit(b):
+		return kfTextDigit
+	case b == ')' || b == '[' || b == ']' || b == '@':
+		return kfTextBracket
+	case b == '"' || c17CurrencyAt(text, off):
+		return kfTextCurr
+	case path && b == '*':
+		return kfPathStar
+	case b == '-' || b == '+':
+		if c17SignedAt(text, off) {
+			return kfTextSign
+		}
+	case c17LetterAt(text, off):
+		if c17ColonAhead(text, off) {
+			return kfTextColon
+		}
+		if c17UpperWordAt(text, off) {
+			return kfTextUpper
+		}
 	}
 	return ""
 }
 
-// c17Matches: does a token at (col, length) render lexeme x? class == "": correctly;
-// otherwise in the wrong way that the named class describes.
-func c17Matches(l *c17Line, x c17Lexeme, col, length int, crlf bool) (bool, string) {
-	ulen := x.u1 - x.u0
-	if col == x.u0 && length == ulen {
-		return true, ""
-	}
-	cols := []int{x.u0}
-	if x.r0 != x.u0 {
-		cols = append(cols, x.r0)
-	}
-	for _, c := range cols {
-		if col == c && length == ulen {
-			return true, kfRunes
-		}
-		switch x.leaf {
-		case lfCode, lfQuoted:
-			if col == c && length == ulen-2 {
-				return true, kfDelims
-			}
-		case lfPipe:
-			if col == c+1 && length == 1 {
-				return true, kfPipe
-			}
-		case lfComment:
-			if crlf && col == c && length == ulen+1 {
-				return true, kfCRLF
-			}
-		}
-	}
-	if (x.leaf == lfTagName || x.leaf == lfTagValue) && x.comment >= 0 {
-		cm := l.lex[x.comment]
-		bases := []int{cm.u0}
-		if cm.r0 != cm.u0 {
-			bases = append(bases, cm.r0)
-		}
-		uoff, boff := x.u0-cm.u0-1, x.b0-cm.b0-1
-		for _, base := range bases {
-			if col == base+1+uoff && length == ulen {
-				return true, kfRunes
-			}
-			if (col == base+1+uoff || col == base+1+boff) && (length == ulen || length == x.b1-x.b0) {
-				return true, kfTagBytes
-			}
-		}
-	}
-	return false, ""
+// ---- excuse windows ----
+
+const c17ToEOL = 1 << 30
+const c17AnyKind = uint32(1)<<(ttTagValue+1) - 1
+
+type c17Window struct {
+	class  string
+	lo, hi int    // columns (inclusive) in which a token may start
+	kinds  uint32 // token types concerned
 }
 
-func c17CheckTokens(lines []*c17Line, eol string, doc string, toks []semanticToken) {
-	crlf := eol == "\r\n"
-	starts := make([]int, len(lines)) // line start offsets in the document
-	off := 0
-	for i, l := range lines {
-		starts[i] = off
-		off += l.b + len(eol)
+func c17IsTextLeaf(leaf int) bool {
+	return leaf == lfDesc || leaf == lfPayee || leaf == lfNote || leaf == lfPath
+}
+
+// c17PayeePending: a transaction header before line li has no text lexeme, and no text-like
+// lexeme stands between it and line li (the tokeniser's payee flag is still set).
+func c17PayeePending(lines []*c17Line, li int) bool {
+	pending := false
+	for j := 0; j < li; j++ {
+		l := lines[j]
+		if len(l.lex) > 0 && l.lex[0].leaf == lfDate {
+			pending = true
+		}
+		for _, x := range l.lex {
+			if c17IsTextLeaf(x.leaf) || x.leaf == lfLower {
+				pending = false
+			}
+		}
 	}
-	var lexToks []c17LexTok
-	lexed := false
+	return pending
+}
+
+func c17LineWindows(lines []*c17Line, li int, crlf bool) []c17Window {
+	l := lines[li]
+	var ws []c17Window
+	// 1. leaves that the lexer does not take for what they are: from the leaf to the line end
+	for j, x := range l.lex {
+		switch {
+		case c17IsTextLeaf(x.leaf):
+			if c := c17TextLeafClass(l.text, x.b0, x.leaf == lfPath); c != "" {
+				ws = append(ws, c17Window{c, x.u0, c17ToEOL, c17AnyKind})
+			}
+		case x.leaf == lfCode:
+			colon := false
+			for i := x.b0 + 1; i < x.b1-1; i++ {
+				colon = colon || l.text[i] == ':'
+			}
+			if colon {
+				ws = append(ws, c17Window{kfCodeColon, x.u0, c17ToEOL, c17AnyKind})
+			}
+		case x.leaf == lfAccount:
+			if !c17LetterAt(l.text, x.b0) {
+				ws = append(ws, c17Window{kfAcctStart, x.u0, c17ToEOL, c17AnyKind})
+			}
+		case x.leaf == lfLower:
+			ws = append(ws, c17Window{kfLowerComm, x.u0, x.u0, c17AnyKind})
+		case x.leaf == lfSign:
+			if !c17SignedAt(l.text, x.b0) {
+				ws = append(ws, c17Window{kfSignSymbol, x.u0, x.u0, c17AnyKind})
+			}
+		case x.leaf == lfCommodity && c17IsUpper(l.text[x.b0]):
+			if j+1 < len(l.lex) && l.lex[j+1].leaf == lfNumber && l.lex[j+1].b0 == x.b1 && c17PrevIsDigit(l.text, x.b0) {
+				ws = append(ws, c17Window{kfCodeDigit, x.u0, c17ToEOL, c17AnyKind})
+			}
+		}
+	}
+	// 2. every token after an astral character (the emitted column is the rune column)
+	for _, w := range l.wides {
+		if c17WideU16[w.k] == 2 {
+			ws = append(ws, c17Window{kfAstral, w.r + 1, c17ToEOL, c17AnyKind})
+			break
+		}
+	}
+	// 3. tags at or after the first multi-byte character of their comment
+	for ci, x := range l.lex {
+		if x.leaf != lfComment {
+			continue
+		}
+		for _, w := range l.wides {
+			if w.b < x.b0 {
+				continue
+			}
+			from := w.u
+			for _, y := range l.lex {
+				if y.comment == ci && y.u0 <= w.u && w.u < y.u1 {
+					from = y.u0
+				}
+			}
+			ws = append(ws, c17Window{kfTagBytes, from, c17ToEOL, c17Bit(ttTag) | c17Bit(ttTagValue)})
+			break
+		}
+	}
+	// 4. CRLF: the comment that ends the line; an empty token at the carriage return
+	if crlf {
+		for _, x := range l.lex {
+			if x.leaf == lfComment {
+				ws = append(ws, c17Window{kfCRLF, x.u0, x.u0, c17Bit(ttComment)})
+			}
+		}
+		ws = append(ws, c17Window{kfCRLF, l.u, l.u, c17AnyKind})
+	}
+	// 5. delimiters
+	for _, x := range l.lex {
+		switch x.leaf {
+		case lfPipe:
+			ws = append(ws, c17Window{kfPipe, x.u0, x.u0 + 1, c17Bit(ttOperator)})
+		case lfCode:
+			ws = append(ws, c17Window{kfCodeParen, x.u0, x.u0, c17Bit(ttCode)})
+		case lfQuoted:
+			ws = append(ws, c17Window{kfQuoted, x.u0, x.u0, c17Bit(ttCommodity)})
+		case lfPath:
+			if c17PayeePending(lines, li) {
+				ws = append(ws, c17Window{kfPayeeLeak, x.u0, x.u0, c17Bit(ttPayee)})
+			}
+		}
+	}
+	return ws
+}
+
+// c17Covers: the token has the span of a lexeme whose kinds include the token's type.
+func c17Covers(l *c17Line, typ uint32, col, length int) bool {
+	for _, x := range l.lex {
+		if x.kinds&c17Bit(typ) != 0 && x.u0 == col && x.u1-x.u0 == length {
+			return true
+		}
+	}
+	return false
+}
+
+func c17CheckTokens(lines []*c17Line, eol string, toks []semanticToken) {
+	crlf := eol == "\r\n"
 	curLine := -1
-	next := 0      // next lexeme index that may still be matched on curLine
-	skipFrom := -1 // rune column from which the current line is excused (mislexed leaf)
-	mislexDone := false
-	prevGood := false // the previous token sits exactly on a lexeme
+	var wins []c17Window
+	prevExcused := false
 	for i, t := range toks {
 		zzverif.Assert(t.tokenType <= ttTagValue, "token type outside the advertised legend")
+		zzverif.Assert(t.modifiers < 4, "token modifier outside the advertised legend")
 		zzverif.Assert(int(t.line) < len(lines), "token on a line that does not exist")
 		if i > 0 {
 			p := toks[i-1]
@@ -898,98 +1103,40 @@ func c17CheckTokens(lines []*c17Line, eol string, doc string, toks []semanticTok
 		}
 		if int(t.line) != curLine {
 			curLine = int(t.line)
-			next, skipFrom, mislexDone, prevGood = 0, -1, false, false
+			wins = c17LineWindows(lines, curLine, crlf)
+			prevExcused = true // nothing to overlap with on this line yet
 		}
 		l := lines[curLine]
 		col, length := int(t.col), int(t.length)
-		if skipFrom >= 0 && col >= skipFrom {
-			prevGood = false
-			continue
-		}
-		// pass 1: a lexeme of that kind exactly there; pass 2: a known-wrong rendering
-		found, class := false, ""
-		for pass := 0; pass < 2 && !found; pass++ {
-			for j := next; j < len(l.lex) && !found; j++ {
-				x := l.lex[j]
-				if x.kinds&c17Bit(t.tokenType) == 0 {
-					continue
-				}
-				ok, c := c17Matches(l, x, col, length, crlf)
-				if ok && (c == "") == (pass == 0) {
-					found, class = true, c
-					next = j + 1
-				}
-			}
-		}
-		if found && class == "" {
-			if prevGood {
-				p := toks[i-1]
-				zzverif.Assert(int(p.col+p.length) <= col, "tokens overlap")
-			}
-			zzverif.Assert(col+length <= l.u, "token extends beyond its line")
-			prevGood = true
-			continue
-		}
-		prevGood = false
-		if found {
-			c17Excused(class)
-			continue
-		}
-		// no lexeme of that kind at that place. A carriage return lexed as content?
-		if crlf && length == 0 && (col == l.u || col == l.r) {
-			c17Excused(kfCRLF)
-			continue
-		}
-		// the payee flag of an earlier header line without description leaks into this line
-		if t.tokenType == ttPayee && curLine > 0 {
-			leak := false
-			for j := next; j < len(l.lex) && !leak; j++ {
-				x := l.lex[j]
-				if x.kinds&c17Bit(ttString) != 0 && x.kinds&c17Bit(ttPayee) == 0 {
-					if ok, c := c17Matches(l, x, col, length, crlf); ok && c == "" {
-						leak = true
-						next = j + 1
-					}
-				}
-			}
-			if leak {
-				c17Excused(kfPayeeLeak)
+		excused, disabled := false, ""
+		for _, w := range wins {
+			if col < w.lo || col > w.hi || w.kinds&c17Bit(t.tokenType) == 0 {
 				continue
 			}
-		}
-		// Is a leaf at or before this token mislexed by the lexer (the classes of C03)?
-		if !mislexDone {
-			mislexDone = true
-			if !lexed {
-				lexToks = c17LexAll(doc)
-				lexed = true
+			if zzverif.Known(w.class) {
+				zzverif.Reach("kf:" + w.class)
+				excused = true
+				break
 			}
-			for j := 0; j < len(l.lex) && skipFrom < 0; j++ {
-				x := l.lex[j]
-				if x.lexType < 0 || c17MislexClass(x.leaf) == "" {
-					continue // only leaves with a mislexing class are judged by the lexer's output
-				}
-				good := false
-				for _, lt := range lexToks {
-					if lt.typ == x.lexType && lt.off == starts[curLine]+x.b0 && lt.valLen == x.lexLen {
-						good = true
-					}
-				}
-				if !good {
-					mc := c17MislexClass(x.leaf)
-					if mc != "" && col >= x.r0 {
-						c17Excused(mc)
-						skipFrom = x.r0
-					} else {
-						skipFrom = 1 << 30
-					}
-				}
-			}
-			if skipFrom >= 0 && col >= skipFrom {
-				continue
+			if disabled == "" {
+				disabled = w.class
 			}
 		}
-		zzverif.Assert(false, c17TypeMsg[t.tokenType])
+		if excused {
+			prevExcused = true
+			continue
+		}
+		msg := c17TypeMsg[t.tokenType]
+		if disabled != "" {
+			msg = c17ClassMsg[disabled]
+		}
+		zzverif.Assert(c17Covers(l, t.tokenType, col, length), msg)
+		zzverif.Assert(col+length <= l.u, "token extends beyond its line")
+		if !prevExcused {
+			p := toks[i-1]
+			zzverif.Assert(int(p.col+p.length) <= col, "tokens overlap")
+		}
+		prevExcused = false
 	}
 }
 
@@ -1009,7 +1156,7 @@ func verifC17Geo(long bool, n int, sc int) {
 		doc += x.text + eol
 	}
 	toks := tokenizeForSemantics(doc)
-	c17CheckTokens(lines, eol, doc, toks)
+	c17CheckTokens(lines, eol, toks)
 	// the encoder reproduces the stream (no modular underflow on the real stream)
 	back, ok := c17Decode(encodeTokens(toks))
 	zzverif.Assert(ok && len(back) == len(toks), "encoded stream decodes")
@@ -1025,16 +1172,36 @@ func VerifC17Geometry()     { verifC17Geo(false, 2, zzverif.Choice("scenario", c
 func VerifC17GeometryLong() { verifC17Geo(true, 3, zzverif.Choice("scenario", c17Scenarios)) }
 
 // dev entry points (removed before delivery)
-func VerifC17GeoDev0() { verifC17Geo(false, 2, 0) }
-func VerifC17GeoDev1() { verifC17Geo(false, 2, 1) }
-func VerifC17GeoDev2() { verifC17Geo(false, 2, 2) }
-func VerifC17GeoDev3() { verifC17Geo(false, 2, 3) }
-func VerifC17GeoDev4() { verifC17Geo(false, 2, 4) }
-func VerifC17GeoDev5() { verifC17Geo(false, 2, 5) }
-func VerifC17GeoDev6() { verifC17Geo(false, 2, 6) }
-func VerifC17GeoDev7() { verifC17Geo(false, 2, 7) }
-func VerifC17GeoDev8() { verifC17Geo(false, 2, 8) }
-func VerifC17GeoDev9() { verifC17Geo(false, 2, 9) }
-func VerifC17GeoDev10() { verifC17Geo(false, 2, 10) }
-func VerifC17GeoDev11() { verifC17Geo(false, 2, 11) }
-func VerifC17GeoDev12() { verifC17Geo(false, 2, 12) }
+func VerifC17GeoDev0()   { verifC17Geo(false, 2, 0) }
+func VerifC17GeoDev1()   { verifC17Geo(false, 2, 1) }
+func VerifC17GeoDev2()   { verifC17Geo(false, 2, 2) }
+func VerifC17GeoDev3()   { verifC17Geo(false, 2, 3) }
+func VerifC17GeoDev4()   { verifC17Geo(false, 2, 4) }
+func VerifC17GeoDev5()   { verifC17Geo(false, 2, 5) }
+func VerifC17GeoDev6()   { verifC17Geo(false, 2, 6) }
+func VerifC17GeoDev7()   { verifC17Geo(false, 2, 7) }
+func VerifC17GeoDev8()   { verifC17Geo(false, 2, 8) }
+func VerifC17GeoDev9()   { verifC17Geo(false, 2, 9) }
+func VerifC17GeoDev10()  { verifC17Geo(false, 2, 10) }
+func VerifC17GeoDev11()  { verifC17Geo(false, 2, 11) }
+func VerifC17GeoDev12()  { verifC17Geo(false, 2, 12) }
+func VerifC17GeoDevL0()  { verifC17Geo(true, 3, 0) }
+func VerifC17GeoDevL1()  { verifC17Geo(true, 3, 1) }
+func VerifC17GeoDevL2()  { verifC17Geo(true, 3, 2) }
+func VerifC17GeoDevL3()  { verifC17Geo(true, 3, 3) }
+func VerifC17GeoDevL4()  { verifC17Geo(true, 3, 4) }
+func VerifC17GeoDevL5()  { verifC17Geo(true, 3, 5) }
+func VerifC17GeoDevL6()  { verifC17Geo(true, 3, 6) }
+func VerifC17GeoDevL7()  { verifC17Geo(true, 3, 7) }
+func VerifC17GeoDevL8()  { verifC17Geo(true, 3, 8) }
+func VerifC17GeoDevL9()  { verifC17Geo(true, 3, 9) }
+func VerifC17GeoDevL10() { verifC17Geo(true, 3, 10) }
+func VerifC17GeoDevL11() { verifC17Geo(true, 3, 11) }
+func VerifC17GeoDevL12() { verifC17Geo(true, 3, 12) }
+
+var c17DevKind = -1
+
+func VerifC17GeoDev8k1() { c17DevKind = 1; verifC17Geo(false, 2, 8) }
+func VerifC17GeoDev8k2() { c17DevKind = 2; verifC17Geo(false, 2, 8) }
+func VerifC17GeoDev8k3() { c17DevKind = 3; verifC17Geo(false, 2, 8) }
+func VerifC17GeoDev8k4() { c17DevKind = 4; verifC17Geo(false, 2, 8) }
